@@ -134,28 +134,54 @@ class Project(object):
 
     def _find_module(self, name):
         # type: (str) -> tuple[str | None, bool]
-        path = self.get_path()
-        filename = None
-        is_source = False
-        for p in path:
-            mpath = os.path.join(p, *name.split('.'))
-            for s in SUFFIXES:
-                fname = mpath + s
-                if os.path.exists(fname):
-                    filename = fname
-                    is_source = s in SOURCE_SUFFIXES
-                    break
-            else:
-                fname = os.path.join(mpath, '__init__.py')
-                if os.path.exists(fname):
-                    filename = fname
-                    is_source = True
-                    break
-
-            if filename:
+        # like the import system: the first path entry that has the top-level
+        # name wins, and submodules are looked up in their package only
+        parts = name.split('.')
+        found = None  # type: tuple[str, bool, str | None] | None
+        namespace = False
+        for p in self.get_path():
+            found = self._probe(p, parts[0])
+            if found:
                 break
+            namespace = namespace or os.path.isdir(os.path.join(p, parts[0]))
 
-        return filename, is_source
+        for part in parts[1:]:
+            if not found:
+                break
+            pkgdir = found[2]
+            if pkgdir is None:
+                found = None  # a plain module has no submodules
+            else:
+                found = self._probe(pkgdir, part)
+                namespace = namespace or (not found and os.path.isdir(os.path.join(pkgdir, part)))
+
+        if found:
+            return found[0], found[1]
+        if namespace:
+            # a directory without __init__.py on the way: a namespace
+            # package, whose portions may be spread over the whole path
+            return self._find_anywhere(name)
+        return None, False
+
+    def _probe(self, directory, name):
+        # type: (str, str) -> tuple[str, bool, str | None] | None
+        mpath = os.path.join(directory, name)
+        for s in SUFFIXES:
+            fname = mpath + s
+            if os.path.exists(fname):
+                return fname, s in SOURCE_SUFFIXES, None
+        fname = os.path.join(mpath, '__init__.py')
+        if os.path.exists(fname):
+            return fname, True, mpath
+        return None
+
+    def _find_anywhere(self, name):
+        # type: (str) -> tuple[str | None, bool]
+        for p in self.get_path():
+            found = self._probe(os.path.join(p, *name.split('.')[:-1]), name.rpartition('.')[2])
+            if found:
+                return found[0], found[1]
+        return None, False
 
     def norm_package(self, package, filename):
         # type: (str, str) -> str
